@@ -3,6 +3,7 @@
 from __future__ import annotations
 
 import csv
+import io
 import itertools as itt
 import json
 import logging
@@ -2384,16 +2385,20 @@ class Converter:
         rows = []
         delimiter = sep or "\t"
         with path.open(newline="") as file_in:
+            encoding = file_in.encoding
             reader = csv.reader(file_in, delimiter=delimiter)
             _header = next(reader) if header else None
             for row in reader:
                 row[column] = func(row[column]) or ""
                 rows.append(row)
-        with path.open("w", newline="") as file_out:
-            writer = csv.writer(file_out, delimiter=delimiter)
-            if _header is not None:
-                writer.writerow(_header)
-            writer.writerows(rows)
+        # format and encode everything before the file is opened for writing (which truncates it),
+        # so a result that can't be encoded leaves the file as it was
+        buffer = io.StringIO(newline="")
+        writer = csv.writer(buffer, delimiter=delimiter)
+        if _header is not None:
+            writer.writerow(_header)
+        writer.writerows(rows)
+        path.write_bytes(buffer.getvalue().encode(encoding))
 
     # docstr-coverage:excused `overload`
     @overload
